@@ -337,10 +337,14 @@ theorem rel_connectBestChain (ht : Tree g T) {s1 s2 : State} (h : Rel g T s1 s2)
         by simp only [connectBestChain, hbest1, hpar, if_false, htt1, hptd1, hside1, if_true, hff1],
         by simp only [connectBestChain, hbest, hpar, if_false, htt, hptd2, hside, if_true, hff], h⟩
     · obtain ⟨a1, a2, hr1, hr2, hrel⟩ := rel_reorgTo ht h hm hb
+      obtain ⟨f, _, _, _, hff, _⟩ := findFork_spec hi hb
+      have hff1 : findFork s1 b = some f := by rw [rel_findFork h b]; exact hff
+      rw [hff1] at hr1
+      rw [hff] at hr2
       have hside1 : ¬ (b.diff + tp ≤ tt ∨ b.height < s1.fin + s1.margin) := by rw [h.fin, h.margin]; exact hside
       exact ⟨a1, a2, .main,
-        by simp only [connectBestChain, hbest1, hpar, if_false, htt1, hptd1, hside1, hr1],
-        by simp only [connectBestChain, hbest, hpar, if_false, htt, hptd2, hside, hr2], hrel⟩
+        by simp only [connectBestChain, hbest1, hpar, if_false, htt1, hptd1, hside1, hff1, hr1],
+        by simp only [connectBestChain, hbest, hpar, if_false, htt, hptd2, hside, hff, hr2], hrel⟩
 
 
 /-! `dbMaybeStoreBlock` -/
